@@ -1,9 +1,10 @@
 // Behavioural probes of the two snapshot-threshold tests and compiler-evaluated constants (TestProbe, output VERIF_OUT).
 // The checks derive / cross-check coq/DvFib/GenConsts.v from this table, so that the translation does not depend on how
 // the Go source spells the tests (identifier names, helpers, named constants).
-//   const <name> <value>
-//   pub <snapshotAt> <seq> <0|1>      publishOp with pt.snapshotAt = snapshotAt, new sequence number seq: snapshot published?
-//   fetch <latest> <known> <0|1>      prefixDataFetch with router.Latest / router.Known: snapshot requested (1) or the next op (0)
+//
+//	const <name> <value>
+//	pub <snapshotAt> <seq> <0|1>      publishOp with pt.snapshotAt = snapshotAt, new sequence number seq: snapshot published?
+//	fetch <latest> <known> <0|1>      prefixDataFetch with router.Latest / router.Known: snapshot requested (1) or the next op (0)
 package dvfib
 
 import (
